@@ -89,12 +89,140 @@ theorem font_roundtrip_norad (hc : Glif.Codec f rd nc ok) (x : Font (noradParts 
     ∃ t x', saveFont x = .ok t ∧ loadFont t = .ok x' ∧ FontEquiv (noradLaws f rd nc ok hc) x x' :=
   font_roundtrip (noradLaws f rd nc ok hc) x hv hn
 
+/-! ### `NormLaws.norm_ok` for the glif instance: what the parser returns for a written glyph can be written again -/
+
+theorem okT_normT (h0 : ok 0) (h1 : ok Glif.f64One) {t : Glif.Transform} (ht : Glif.OkT ok t) :
+    Glif.OkT ok (Glif.normT t) := by
+  obtain ⟨a, b, c, d, e, g⟩ := ht
+  unfold Glif.normT
+  refine ⟨?_, ?_, ?_, ?_, ?_, ?_⟩ <;> simp only <;> split <;> assumption
+
+theorem glyphIdents_normG (g : Glif.Glyph) : Glif.Spec.glyphIdents (Glif.normG nc g) = Glif.Spec.glyphIdents g := by
+  simp only [Glif.Spec.glyphIdents, Glif.normG, List.filterMap_map, List.flatMap_map, Function.comp_def,
+    Glif.pAnchor, Glif.pGuideline, Glif.pComponent, Glif.pContour, Glif.pPoint]
+
+/-- **discharged**: a glyph inside the C02 guard that has been written and read back (`normG`) is inside the guard
+    again — for every number guard `ok` that admits `0` and `1.0` (the values an omitted transform coefficient is read
+    as).  With this, `norad_output_is_fixed_point` holds for norad's own glif codec without a glyph assumption. -/
+theorem noradNorm (hc : Glif.Codec f rd nc ok) (h0 : ok 0) (h1 : ok Glif.f64One) :
+    NormLaws (noradLaws f rd nc ok hc) where
+  norm_ok := by
+    intro (g : Glif.Glyph) (h : GlifGuard f ok g)
+    show GlifGuard f ok (Glif.normG nc g)
+    have hv := h.valid
+    refine { valid := ?_, noObjectLibs := ?_, noKey := h.noKey, libStable := h.libStable, note := h.note,
+             advance := h.advance, contoursNonempty := ?_ }
+    · refine { name := hv.name, width := hv.width, height := hv.height, codepoints := hv.codepoints,
+               codepointsNodup := hv.codepointsNodup, image := ?_, anchors := ?_, guidelines := ?_, contours := ?_,
+               components := ?_, idents := ?_ }
+      · intro i hi
+        simp only [Glif.normG, Option.map_eq_some_iff] at hi
+        obtain ⟨i0, hi0, rfl⟩ := hi
+        have := hv.image i0 hi0
+        exact ⟨this.name, okT_normT ok h0 h1 this.transform⟩
+      · intro a ha
+        simp only [Glif.normG, List.mem_map] at ha
+        obtain ⟨a0, ha0, rfl⟩ := ha
+        have := hv.anchors a0 ha0
+        exact ⟨this.x, this.y, this.name, this.ident⟩
+      · intro a ha
+        simp only [Glif.normG, List.mem_map] at ha
+        obtain ⟨a0, ha0, rfl⟩ := ha
+        have := hv.guidelines a0 ha0
+        exact ⟨this.line, this.name, this.ident⟩
+      · intro c hc'
+        simp only [Glif.normG, List.mem_map] at hc'
+        obtain ⟨c0, hc0, rfl⟩ := hc'
+        have := hv.contours c0 hc0
+        refine ⟨?_, ?_, this.ident⟩
+        · intro p hp
+          simp only [Glif.pContour, List.mem_map] at hp
+          obtain ⟨p0, hp0, rfl⟩ := hp
+          have hp' := this.points p0 hp0
+          exact ⟨hp'.x, hp'.y, hp'.name, hp'.ident⟩
+        · have : (Glif.pContour c0).points.map Glif.toPt = c0.points.map Glif.toPt := by
+            simp [Glif.pContour, Glif.pPoint, Glif.toPt, List.map_map, Function.comp_def]
+          rw [this]; exact (hv.contours c0 hc0).legal
+      · intro k hk
+        simp only [Glif.normG, List.mem_map] at hk
+        obtain ⟨k0, hk0, rfl⟩ := hk
+        have := hv.components k0 hk0
+        exact ⟨this.base, okT_normT ok h0 h1 this.transform, this.ident⟩
+      · rw [glyphIdents_normG]; exact hv.idents
+    · refine ⟨?_, ?_, ?_, ?_⟩
+      · intro a ha; simp only [Glif.normG, List.mem_map] at ha; obtain ⟨a0, _, rfl⟩ := ha; rfl
+      · intro a ha; simp only [Glif.normG, List.mem_map] at ha; obtain ⟨a0, _, rfl⟩ := ha; rfl
+      · intro c hc'
+        simp only [Glif.normG, List.mem_map] at hc'
+        obtain ⟨c0, _, rfl⟩ := hc'
+        refine ⟨rfl, ?_⟩
+        intro p hp
+        simp only [Glif.pContour, List.mem_map] at hp
+        obtain ⟨p0, _, rfl⟩ := hp
+        rfl
+      · intro a ha; simp only [Glif.normG, List.mem_map] at ha; obtain ⟨a0, _, rfl⟩ := ha; rfl
+    · intro c hc'
+      simp only [Glif.normG, List.mem_map] at hc'
+      obtain ⟨c0, hc0, rfl⟩ := hc'
+      have := h.contoursNonempty c0 hc0
+      simp only [Glif.pContour]
+      intro he
+      exact this (List.map_eq_nil_iff.1 he)
+
+/-- **C04 with the glif part instantiated**: for norad's glif codec, every valid font inside the guards is saved and
+    loaded to a font that is saved and loaded again to the same font — no assumption about glyphs is left (`glyph_rt`
+    by C02 `glif_roundtrip_partial_no_object_libs`, `norm_ok` by `noradNorm`). -/
+theorem norad_output_is_fixed_point_glif (hc : Glif.Codec f rd nc ok) (h0 : ok 0) (h1 : ok Glif.f64One)
+    (x : Font (noradParts f rd)) (hv : ValidFont (noradLaws f rd nc ok hc) x) (hn : NumbersOK x) :
+    ∃ t x', saveFont x = .ok t ∧ loadFont t = .ok x' ∧
+      ∃ t' x'', saveFont x' = .ok t' ∧ loadFont t' = .ok x'' ∧ FontEquiv (noradLaws f rd nc ok hc) x' x'' :=
+  norad_output_is_fixed_point (noradLaws f rd nc ok hc) (noradNorm f rd nc ok hc h0 h1) x hv hn
+
 /-- the validity field of `ValidFont` for this instance is the specification's rule set (C13) -/
 theorem restValid_iff_rules (i : C13.Info) (t : String) :
     (noradParts f rd).restValid (i, t) = true ↔ C13.Rules i ∧ wtB i = true := by
   simp only [noradParts, Bool.and_eq_true, decide_eq_true_eq, C13.validate_iff_rules]
 
 end
+/-! ## the other font-info fields as the regenerated field table: `rest_rt` under the leaf law only -/
+
+section table
+variable {L : Type} (C : FT.LeafCodec L)
+
+/-- the "rest" of the font info is a value of the whole field table (`fontinfoTy`, 108 fields); a value that the
+    table cannot express is not valid -/
+def tableParts : Parts where
+  Glyph := String
+  GlifFile := String
+  encGlyph := id
+  decGlyph := some
+  Rest := FT.Val L
+  RestFile := Option PV
+  encRest := FT.enc C fontinfoTy
+  decRest := fun o => o.bind (FT.dec C fontinfoTy)
+  restValid := fun v => (FT.enc C fontinfoTy v).isSome
+
+/-- **`rest_rt` discharged** by `fontinfo_fieldtable_roundtrip`: what remains assumed of the font-info serde is
+    `FT.LeafLaw` (primitive leaves through serde and the `plist` crate) -/
+def tableLaws (hL : FT.LeafLaw C) : PartLaws (tableParts C) where
+  glyphOK := fun _ => True
+  normGlyph := id
+  glyph_rt := fun _ _ => rfl
+  rest_rt := by
+    intro v h
+    simp only [tableParts, Option.isSome_iff_exists] at h
+    obtain ⟨p, hp⟩ := h
+    simp only [tableParts, hp, Option.bind_some]
+    exact fontinfo_fieldtable_roundtrip C hL v p hp
+
+/-- C01 with the font-info fields as the field table of the source -/
+theorem font_roundtrip_fieldtable (hL : FT.LeafLaw C) (x : Font (tableParts C))
+    (hv : ValidFont (tableLaws C hL) x) (hn : NumbersOK x) :
+    ∃ t x', saveFont x = .ok t ∧ loadFont t = .ok x' ∧ FontEquiv (tableLaws C hL) x x' :=
+  font_roundtrip (tableLaws C hL) x hv hn
+
+end table
+
 /-! ## layer containers: the structural fields of `ValidFont` follow from C06's invariant
 
 `Layers.SInv` holds in every state the public container API can reach (C06 `inv_reachable`, with the real
